@@ -25,7 +25,14 @@ import (
 
 type schedAbort struct{}
 
+var serializedDeferred int64 // switches postponed because of critical sections (process total, for evidence)
+
 var schedHook func(site int)
+
+// schedLockHook is told (by the instrumented build) when the calling goroutine enters or leaves a critical
+// section of the library. A task is never parked inside one: a parked lock holder would block the next task
+// for real, and the simulator could not tell that from a deadlock.
+var schedLockHook func(delta int)
 
 // schedYield is the yield point owned by the simulator itself (SimRand, spies).
 func schedYield(site string) {
@@ -48,6 +55,7 @@ type taskRun struct {
 	harness   any
 	errs      []error
 	gid       int64 // the task's own goroutine; yield calls from any other goroutine are ignored
+	lockDepth int   // critical sections of the library this task is inside right now
 }
 
 type sched struct {
@@ -58,6 +66,18 @@ type sched struct {
 	yields   int64
 	switches int
 	sig      uint64 // hash of the realised (task, site) switch sequence
+	deferred int64  // switches postponed because the task was inside a critical section
+}
+
+func (s *sched) lockHook(delta int) {
+	t := s.cur
+	if t == nil || goid() != t.gid {
+		return
+	}
+	t.lockDepth += delta
+	if t.lockDepth < 0 {
+		t.lockDepth = 0
+	}
 }
 
 func (s *sched) hook(site int) {
@@ -73,6 +93,10 @@ func (s *sched) hook(site int) {
 	if goid() != t.gid {
 		// a goroutine the LIBRARY started: not a task, never holds the baton, runs freely; the task
 		// itself switches at its next yield point (goroutine identity is looked up only here: it is slow)
+		return
+	}
+	if t.lockDepth > 0 {
+		s.deferred++ // switch at the first yield point after the critical section
 		return
 	}
 	s.sig = mix(s.sig^uint64(t.id+1), uint64(site+3))
@@ -133,8 +157,8 @@ func runSerialized(tasks []Task, schedule []SchedSlot) (traces [][]string, yield
 		s.tasks = append(s.tasks, t)
 		go s.runTask(t)
 	}
-	prev := schedHook
-	schedHook = s.hook
+	prev, prevL := schedHook, schedLockHook
+	schedHook, schedLockHook = s.hook, s.lockHook
 	for _, slot := range schedule {
 		if slot.Task < 0 || slot.Task >= len(s.tasks) {
 			continue
@@ -154,7 +178,8 @@ func runSerialized(tasks []Task, schedule []SchedSlot) (traces [][]string, yield
 			s.give(t, 1<<30)
 		}
 	}
-	schedHook = prev
+	schedHook, schedLockHook = prev, prevL
+	serializedDeferred += s.deferred
 	simRand.cur = nil
 	for _, t := range s.tasks {
 		if t.harness != nil {
@@ -388,7 +413,15 @@ func opC18(w *World, s *Step) (string, string) {
 		var yields int64
 		var switches int
 		var sig uint64
-		inter, yields, switches, sig = runSerialized(s.Tasks, s.Schedule)
+		before := serializedDeferred
+		sched := s.Schedule
+		if os.Getenv("IKESIM_C18_SEQUENTIAL") != "" {
+			sched = nil // tasks one after the other, nobody is ever parked (used to classify a watchdog hit)
+		}
+		inter, yields, switches, sig = runSerialized(s.Tasks, sched)
+		if d := serializedDeferred - before; d > 0 {
+			w.stats.add("c18_switches_postponed_inside_critical_section", d)
+		}
 		w.stats.add("c18_yield_points_passed", yields)
 		w.stats.add("c18_context_switches", int64(switches))
 		w.stats.add("fault_schedule_forced_context_switches", int64(switches))
